@@ -635,9 +635,11 @@ def loop(options: argparse.Namespace) -> None:
     signal.signal(signal.SIGTERM, sigterm_handler)
 
     while True:
-        checks, state = one(checks, state)
-
         try:
+            # inside the try: ^C (or anything else) landing while the check command runs left the loop without the
+            # withdraw, and ExaBGP went on announcing the service of a helper which no longer exists
+            checks, state = one(checks, state)
+
             # How much we should sleep?
             if state in (States.FALLING, States.RISING):
                 time.sleep(options.fast)
@@ -650,6 +652,9 @@ def loop(options: argparse.Namespace) -> None:
         except KeyboardInterrupt:
             exabgp(States.EXIT)
             break
+        except Exception:
+            exabgp(States.EXIT)
+            raise
 
 
 def cmdline(cmdarg: argparse.Namespace) -> None:
